@@ -207,5 +207,14 @@ func TestVerifC40(t *testing.T) {
 				x.Fail("deadlock", "scheduler verdict %s", verdict)
 			}
 			x.Outcome(fmt.Sprintf("regs=%d left=%v notified=%d", len(regs), left, len(log)))
+			x.State(fmt.Sprintf("%v|%v|%v", regsKey(regs), left, log))
 		})
+}
+
+func regsKey(rs []*c40reg) string {
+	k := ""
+	for _, r := range rs {
+		k += fmt.Sprintf("%d:%s:%v;", r.n, r.key, r.settled)
+	}
+	return k
 }
